@@ -159,7 +159,25 @@ fn rotate(rng: &mut Sm64, rows: &mut [Vec<f64>], p: usize, times: usize) {
     }
 }
 
-const FAMILIES: [&str; 8] = ["isotropic", "anisotropic", "lowrank_noise", "lowrank_exact", "offset", "badscale", "lattice", "tiny"];
+/// mix integer columns with small integer shears (keeps every entry an integer, correlates the columns)
+fn rotate_int(rng: &mut Sm64, rows: &mut [Vec<f64>], p: usize) {
+    if p < 2 {
+        return;
+    }
+    for _ in 0..p {
+        let a = rng.below(p as u64) as usize;
+        let mut b = rng.below(p as u64 - 1) as usize;
+        if b >= a {
+            b += 1;
+        }
+        let c = rng.range(-2, 2) as f64;
+        for r in rows.iter_mut() {
+            r[a] += c * r[b];
+        }
+    }
+}
+
+const FAMILIES: [&str; 10] = ["isotropic", "anisotropic", "lowrank_noise", "lowrank_exact", "offset", "badscale", "lattice", "tiny", "dup_columns", "huge_offset"];
 
 fn gen_data(rng: &mut Sm64, n: usize, p: usize, fam: usize) -> Vec<Vec<f64>> {
     let mut rows: Vec<Vec<f64>> = (0..n).map(|_| (0..p).map(|_| rng.gauss()).collect()).collect();
@@ -219,6 +237,51 @@ fn gen_data(rng: &mut Sm64, n: usize, p: usize, fam: usize) -> Vec<Vec<f64>> {
                 }
             }
             rotate(rng, &mut rows, p, p);
+        }
+        8 => {
+            // duplicated columns: some columns are exact copies (or exact power-of-two multiples) of others,
+            // so the centred data is EXACTLY rank deficient (rank p - d) - no rounding hides the null space
+            if p >= 2 {
+                if rng.chance(0.4) {
+                    for r in rows.iter_mut() {
+                        for j in 0..p {
+                            r[j] = (r[j] * 4.0).round() * 0.25;
+                        }
+                    }
+                }
+                let d = 1 + rng.below(usize::min(3, p - 1) as u64) as usize;
+                let mut idx: Vec<usize> = (0..p).collect();
+                rng.shuffle(&mut idx);
+                for t in 0..d {
+                    // destination idx[t] copies a surviving source column idx[d + ...]
+                    let src = idx[d + rng.below((p - d) as u64) as usize];
+                    let f = *rng.pick(&[1.0, 1.0, -1.0, 2.0, 0.5]);
+                    for r in rows.iter_mut() {
+                        r[idx[t]] = f * r[src];
+                    }
+                }
+            }
+        }
+        9 => {
+            // offsets many orders of magnitude above the spread (|offset| <= 2^43, spread ~ 10): integer data, so
+            // that every record and - for n a power of two - the column mean are exactly representable; the
+            // centred data is then exact and an implementation that centres BEFORE projecting loses nothing,
+            // whereas x.V^T - mean.V^T cancels catastrophically (absolute error ~ 2^43 eps sqrt(p) ~ 1e-3)
+            for r in rows.iter_mut() {
+                for j in 0..p {
+                    r[j] = (r[j] * 6.0 / (1.0 + (j % 3) as f64)).round();
+                }
+            }
+            rotate_int(rng, &mut rows, p);
+            let off: Vec<f64> = (0..p).map(|_| {
+                let m = (1 + rng.below(8)) as f64 * if rng.chance(0.5) { -1.0 } else { 1.0 };
+                m * f64::powi(2.0, *rng.pick(&[40, 40, 38, 36]))
+            }).collect();
+            for r in rows.iter_mut() {
+                for j in 0..p {
+                    r[j] += off[j];
+                }
+            }
         }
         _ => {
             // small integer lattice: exact sums, repeated rows, tied eigenvalues are likely
@@ -293,13 +356,150 @@ fn f64_diag(x: &[Vec<f64>], f: &FitOut, n: usize) -> (f64, f64, f64) {
     (orth, ritz, res)
 }
 
+/// one fit of `x` (n x p, given layout) with embedding size k: runs the implementation and the external solver,
+/// classifies the input (tags), emits the Coq case (or the Rust-side failure for a panic / an error)
+#[allow(clippy::too_many_arguments)]
+fn one_fit(out: &mut Out, id: u64, x: &[Vec<f64>], q: &[Vec<f64>], n: usize, p: usize, k: usize, whiten: bool, fortran: bool,
+           fam: &str, di: usize, stream: &str, probe: bool) {
+    if !out.wanted(id) {
+        // replay of another case: nothing of this fit is needed (all randomness is drawn by the caller)
+        return;
+    }
+    let xa = arr(x, p, fortran);
+    let qa = arr(q, p, false);
+    let res = run_fit(&xa, &qa, k, whiten);
+    let svd = raw_svd(&xa, k);
+    let (status, evals) = lobpcg_status(&xa, k);
+    // the replica is trusted only if it reproduces the solver's singular values bit for bit
+    let faithful = match &svd {
+        Ok((ss, _)) => {
+            let mut e = evals.clone();
+            e.sort_by(|a, b| b.partial_cmp(a).unwrap_or(std::cmp::Ordering::Equal));
+            ss.len() <= e.len() && ss.iter().zip(e.iter()).all(|(s, v)| s.to_bits() == v.sqrt().to_bits())
+        }
+        Err(_) => false,
+    };
+    let kcls = if k == 1 { "k_1" } else if k == p { "k_full" } else { "k_interior" };
+    let mut tags: Vec<String> = vec![
+        format!("family_{}", fam),
+        kcls.to_string(),
+        (if whiten { "whiten" } else { "plain" }).to_string(),
+        (if fortran { "layout_f" } else { "layout_c" }).to_string(),
+        "valid_input".to_string(),
+        format!("stream_{}", stream),
+    ];
+    let desc_head = format!(
+        "\"n\": {}, \"p\": {}, \"k\": {}, \"whiten\": {}, \"family\": {}, \"layout\": {}, \"stream\": {}, \"dataset\": {}, \"unseen_queries\": {}, \"X_first_row\": {:?}",
+        n, p, k, whiten, jstr(fam), jstr(if fortran { "F" } else { "C" }), jstr(stream), di, q.len() - n, x[0]
+    );
+    out.bump(&format!("family_{}", fam));
+    out.bump(&format!("stream_{}", stream));
+    out.bump(&format!("p_{}", p));
+    out.bump(kcls);
+    out.bump(if whiten { "whiten" } else { "plain" });
+    out.bump(if fortran { "layout_f" } else { "layout_c" });
+    out.bump(&format!("n_minus_p_{}", if n - p <= 1 { "1" } else if n - p <= 3 { "2to3" } else if n - p <= 12 { "4to12" } else { "gt12" }));
+    match res {
+        Res::Ok(f) => {
+            if probe {
+                let (o, rz, rs) = f64_diag(x, &f, n);
+                eprintln!("PROBE id={} fam={} n={} p={} k={} m={} w={} orth={:.2e} ritz={:.2e} res={:.2e} svd_ok={} status={} faithful={}", id, fam, n, p, k, f.sigma.len(), whiten, o, rz, rs, svd.is_ok(), status, faithful);
+            }
+            {
+                // trace of the centred Gram matrix: at or below the solver's absolute residual tolerance
+                // (precision^2 = 1e-10) LOBPCG accepts its random start block as converged
+                let mut tr = 0.0;
+                for j in 0..p {
+                    let mj: f64 = x.iter().map(|r| r[j]).sum::<f64>() / n as f64;
+                    tr += x.iter().map(|r| (r[j] - mj) * (r[j] - mj)).sum::<f64>();
+                }
+                if tr <= 1e-10 {
+                    tags.push("gram_trace_le_1e-10".into());
+                    out.bump("gram_trace_le_1e-10");
+                }
+            }
+            out.bump(&format!("lobpcg_{}{}", status, if faithful { "" } else { "_unfaithful_replica" }));
+            if faithful && status != "ok" {
+                tags.push(format!("lobpcg_{}", status));
+            }
+            if let Ok((ss, vt)) = &svd {
+                // known-finding classes are defined on the SOLVER's raw output, obtained by calling it
+                // directly: thresholds are two orders below the oracle's, so that every oracle rejection
+                // caused by the solver is tagged, and nothing pca.rs does can earn the tag
+                let (so, sr, se) = solver_diag(&xa, ss, vt);
+                if so > 1e-9 || sr > 1e-9 {
+                    tags.push("solver_block_not_orthonormal".into());
+                    out.bump("solver_block_not_orthonormal");
+                }
+                if se > 1e-9 {
+                    tags.push("solver_block_residual".into());
+                    out.bump("solver_block_residual");
+                }
+            }
+            if let Ok((ss, _)) = &svd {
+                if ss.iter().any(|s| *s < 1e-8) {
+                    tags.push("sigma_below_floor".into());
+                    out.bump("sigma_below_floor");
+                }
+            }
+            if f.sigma.len() < k {
+                tags.push("truncated".into());
+                out.bump("fewer_components_than_requested");
+            }
+            if !f.transform_same || !f.targets_kept {
+                let tr: Vec<&str> = tags.iter().map(|s| s.as_str()).collect();
+                out.rust_fail(id, 1 << 20, &tr, "Transformer::transform differs from predict on the records or drops the targets / weights", &format!("{{{}}}", desc_head));
+            }
+            let (has_svd, ss, sv) = match &svd {
+                Ok((s, v)) => (true, s.clone(), v.clone()),
+                Err(_) => (false, vec![], vec![]),
+            };
+            let coq = format!(
+                "{{| c_id := {}; c_n := {}; c_p := {}; c_k := {}; c_whiten := {}; c_colmajor := {}; c_X := {}; c_Q := {}; \
+                 c_res := 0%N; c_errk := 0%N; c_has_svd := {}; c_svd_sigma := {}; c_svd_vt := {}; \
+                 c_mean := {}; c_sigma := {}; c_emb := {}; c_ev := {}; c_evr := {}; c_pred := {}; c_inv := {} |}}",
+                cn(id), cn(n as u64), cn(p as u64), cn(k as u64), cbool(whiten), cbool(fortran), cmat64(x), cmat64(&q[n..]),
+                cbool(has_svd), cvec64(&ss), cmat64(&sv),
+                cvec64(&f.mean), cvec64(&f.sigma), cmat64(&f.emb), cvec64(&f.ev), cvec64(&f.evr), cmat64(&f.pred), cmat64(&f.inv)
+            );
+            let desc = format!("{{{}, \"components_returned\": {}, \"sigma\": {:?}}}", desc_head, f.sigma.len(), f.sigma);
+            let tr: Vec<&str> = tags.iter().map(|s| s.as_str()).collect();
+            let key = fnv_f64s(&x.concat(), ((k as u64) << 8) | ((whiten as u64) << 1) | fortran as u64);
+            out.case(id, &coq, &tr, &desc, Some(key));
+        }
+        Res::Panic(msg) => {
+            if probe {
+                eprintln!("PROBE id={} fam={} n={} p={} k={} PANIC {}", id, fam, n, p, k, msg);
+            }
+            tags.push(if msg.contains("NaN values in array") { "panic_nan_values".into() } else { "panic_other".into() });
+            out.bump("fit_panicked");
+            let tr: Vec<&str> = tags.iter().map(|s| s.as_str()).collect();
+            let desc = format!("{{{}, \"panic\": {}}}", desc_head, jstr(&msg));
+            out.rust_fail(id, 1 << 21, &tr, &format!("fit panicked on valid input: {}", msg), &desc);
+            out.rust_eval(&desc, None);
+        }
+        Res::ErrNotEnough | Res::ErrTooSmall(_) | Res::ErrOther(_) => {
+            let msg = match res { Res::ErrOther(m) => m, Res::ErrNotEnough => "NotEnoughSamples".into(), _ => "EmbeddingTooSmall".into() };
+            if probe {
+                eprintln!("PROBE id={} fam={} n={} p={} k={} ERR {}", id, fam, n, p, k, msg);
+            }
+            tags.push("fit_error".into());
+            out.bump("fit_error_on_valid_input");
+            let tr: Vec<&str> = tags.iter().map(|s| s.as_str()).collect();
+            let desc = format!("{{{}, \"error\": {}}}", desc_head, jstr(&msg));
+            out.rust_fail(id, 1 << 22, &tr, &format!("fit returned an error on valid input (n > p >= k >= 1): {}", msg), &desc);
+            out.rust_eval(&desc, None);
+        }
+    }
+}
+
 fn main() {
     let args = parse_args();
     let mut rng = Sm64::new(args.seed);
     let thorough = args.tier == "thorough";
     let probe = std::env::var("C18_PROBE").is_ok();
-    let ndatasets = if thorough { 420 } else { 72 };
-    let maxp = 8usize;
+    let ndatasets = if thorough { 400 } else { 62 };
+    let maxp = 10usize;
     let mut out = Out::new(&args.out, args.shards, "C18.Corr", "case", args.only);
     let mut id: u64 = 0;
 
@@ -307,147 +507,29 @@ fn main() {
     for di in 0..ndatasets {
         let mut r = rng.fork();
         let fam = if di < 2 * FAMILIES.len() { di % FAMILIES.len() } else { r.below(FAMILIES.len() as u64) as usize };
-        let p = if di < maxp { di + 1 } else { 1 + r.below(maxp as u64) as usize };
+        // p = 1..10 once each, then mostly 1..8 (the two largest sizes cost the most in the exact checker)
+        let p = if di < maxp { di + 1 } else if r.chance(0.12) { 9 + r.below(2) as usize } else { 1 + r.below(8) as usize };
         let nmax = if thorough { 60 } else { 36 };
-        // n > p; small n - p (borderline) is over-represented
-        let n = match r.below(4) {
+        // n > p; barely over-determined data (n = p + 1: the centred data has rank <= p exactly, n - p <= 3) is over-represented
+        let mut n = match r.below(4) {
             0 => p + 1,
             1 => p + 1 + r.below(3) as usize,
             _ => p + 1 + r.below((nmax - p) as u64) as usize,
         };
+        if fam == 9 && r.chance(0.5) {
+            // huge offsets: a power of two makes the column means exactly representable
+            n = if p < 8 && r.chance(0.5) { 8 } else if p < 16 && r.chance(0.5) { 16 } else { 32 };
+        }
         let x = gen_data(&mut r, n, p, fam);
         let fortran = r.chance(0.3);
-        let xa = arr(&x, p, fortran);
         // queries = the training rows, then the zero vector, a far point, a fresh point
         let mut q = x.clone();
         q.push(vec![0.0; p]);
         q.push((0..p).map(|_| r.range(-40, 40) as f64 * 25.0).collect());
         q.push((0..p).map(|_| r.gauss()).collect());
-        let qa = arr(&q, p, false);
         for k in 1..=p {
             let whiten = r.chance(0.5);
-            let res = run_fit(&xa, &qa, k, whiten);
-            let svd = raw_svd(&xa, k);
-            let (status, evals) = lobpcg_status(&xa, k);
-            // the replica is trusted only if it reproduces the solver's singular values bit for bit
-            let faithful = match &svd {
-                Ok((ss, _)) => {
-                    let mut e = evals.clone();
-                    e.sort_by(|a, b| b.partial_cmp(a).unwrap_or(std::cmp::Ordering::Equal));
-                    ss.len() <= e.len() && ss.iter().zip(e.iter()).all(|(s, v)| s.to_bits() == v.sqrt().to_bits())
-                }
-                Err(_) => false,
-            };
-            let kcls = if k == 1 { "k_1" } else if k == p { "k_full" } else { "k_interior" };
-            let mut tags: Vec<String> = vec![
-                format!("family_{}", FAMILIES[fam]),
-                kcls.to_string(),
-                (if whiten { "whiten" } else { "plain" }).to_string(),
-                (if fortran { "layout_f" } else { "layout_c" }).to_string(),
-                "valid_input".to_string(),
-            ];
-            let desc_head = format!(
-                "\"n\": {}, \"p\": {}, \"k\": {}, \"whiten\": {}, \"family\": {}, \"layout\": {}, \"dataset\": {}, \"X_first_row\": {:?}",
-                n, p, k, whiten, jstr(FAMILIES[fam]), jstr(if fortran { "F" } else { "C" }), di, x[0]
-            );
-            out.bump(&format!("family_{}", FAMILIES[fam]));
-            out.bump(&format!("p_{}", p));
-            out.bump(kcls);
-            out.bump(if whiten { "whiten" } else { "plain" });
-            out.bump(if fortran { "layout_f" } else { "layout_c" });
-            out.bump(&format!("n_minus_p_{}", if n - p <= 3 { "le3" } else if n - p <= 12 { "4to12" } else { "gt12" }));
-            match res {
-                Res::Ok(f) => {
-                    if probe {
-                        let (o, rz, rs) = f64_diag(&x, &f, n);
-                        eprintln!("PROBE id={} fam={} n={} p={} k={} m={} w={} orth={:.2e} ritz={:.2e} res={:.2e} svd_ok={} status={} faithful={}", id, FAMILIES[fam], n, p, k, f.sigma.len(), whiten, o, rz, rs, svd.is_ok(), status, faithful);
-                    }
-                    {
-                        // trace of the centred Gram matrix: at or below the solver's absolute residual tolerance
-                        // (precision^2 = 1e-10) LOBPCG accepts its random start block as converged
-                        let mut tr = 0.0;
-                        for j in 0..p {
-                            let mj: f64 = x.iter().map(|r| r[j]).sum::<f64>() / n as f64;
-                            tr += x.iter().map(|r| (r[j] - mj) * (r[j] - mj)).sum::<f64>();
-                        }
-                        if tr <= 1e-10 {
-                            tags.push("gram_trace_le_1e-10".into());
-                            out.bump("gram_trace_le_1e-10");
-                        }
-                    }
-                    out.bump(&format!("lobpcg_{}{}", status, if faithful { "" } else { "_unfaithful_replica" }));
-                    if faithful && status != "ok" {
-                        tags.push(format!("lobpcg_{}", status));
-                    }
-                    if let Ok((ss, vt)) = &svd {
-                        // known-finding classes are defined on the SOLVER's raw output, obtained by calling it
-                        // directly: thresholds are two orders below the oracle's, so that every oracle rejection
-                        // caused by the solver is tagged, and nothing pca.rs does can earn the tag
-                        let (so, sr, se) = solver_diag(&xa, ss, vt);
-                        if so > 1e-9 || sr > 1e-9 {
-                            tags.push("solver_block_not_orthonormal".into());
-                            out.bump("solver_block_not_orthonormal");
-                        }
-                        if se > 1e-9 {
-                            tags.push("solver_block_residual".into());
-                            out.bump("solver_block_residual");
-                        }
-                    }
-                    if let Ok((ss, _)) = &svd {
-                        if ss.iter().any(|s| *s < 1e-8) {
-                            tags.push("sigma_below_floor".into());
-                            out.bump("sigma_below_floor");
-                        }
-                    }
-                    if f.sigma.len() < k {
-                        tags.push("truncated".into());
-                        out.bump("fewer_components_than_requested");
-                    }
-                    if !f.transform_same || !f.targets_kept {
-                        let tr: Vec<&str> = tags.iter().map(|s| s.as_str()).collect();
-                        out.rust_fail(id, 1 << 20, &tr, "Transformer::transform differs from predict on the records or drops the targets / weights", &format!("{{{}}}", desc_head));
-                    }
-                    let (has_svd, ss, sv) = match &svd {
-                        Ok((s, v)) => (true, s.clone(), v.clone()),
-                        Err(_) => (false, vec![], vec![]),
-                    };
-                    let coq = format!(
-                        "{{| c_id := {}; c_n := {}; c_p := {}; c_k := {}; c_whiten := {}; c_colmajor := {}; c_X := {}; c_Q := {}; \
-                         c_res := 0%N; c_errk := 0%N; c_has_svd := {}; c_svd_sigma := {}; c_svd_vt := {}; \
-                         c_mean := {}; c_sigma := {}; c_emb := {}; c_ev := {}; c_evr := {}; c_pred := {}; c_inv := {} |}}",
-                        cn(id), cn(n as u64), cn(p as u64), cn(k as u64), cbool(whiten), cbool(fortran), cmat64(&x), cmat64(&q[n..]),
-                        cbool(has_svd), cvec64(&ss), cmat64(&sv),
-                        cvec64(&f.mean), cvec64(&f.sigma), cmat64(&f.emb), cvec64(&f.ev), cvec64(&f.evr), cmat64(&f.pred), cmat64(&f.inv)
-                    );
-                    let desc = format!("{{{}, \"components_returned\": {}, \"sigma\": {:?}}}", desc_head, f.sigma.len(), f.sigma);
-                    let tr: Vec<&str> = tags.iter().map(|s| s.as_str()).collect();
-                    let key = fnv_f64s(&x.concat(), ((k as u64) << 8) | ((whiten as u64) << 1) | fortran as u64);
-                    out.case(id, &coq, &tr, &desc, Some(key));
-                }
-                Res::Panic(msg) => {
-                    if probe {
-                        eprintln!("PROBE id={} fam={} n={} p={} k={} PANIC {}", id, FAMILIES[fam], n, p, k, msg);
-                    }
-                    tags.push(if msg.contains("NaN values in array") { "panic_nan_values".into() } else { "panic_other".into() });
-                    out.bump("fit_panicked");
-                    let tr: Vec<&str> = tags.iter().map(|s| s.as_str()).collect();
-                    let desc = format!("{{{}, \"panic\": {}}}", desc_head, jstr(&msg));
-                    out.rust_fail(id, 1 << 21, &tr, &format!("fit panicked on valid input: {}", msg), &desc);
-                    out.rust_eval(&desc, None);
-                }
-                Res::ErrNotEnough | Res::ErrTooSmall(_) | Res::ErrOther(_) => {
-                    let msg = match res { Res::ErrOther(m) => m, Res::ErrNotEnough => "NotEnoughSamples".into(), _ => "EmbeddingTooSmall".into() };
-                    if probe {
-                        eprintln!("PROBE id={} fam={} n={} p={} k={} ERR {}", id, FAMILIES[fam], n, p, k, msg);
-                    }
-                    tags.push("fit_error".into());
-                    out.bump("fit_error_on_valid_input");
-                    let tr: Vec<&str> = tags.iter().map(|s| s.as_str()).collect();
-                    let desc = format!("{{{}, \"error\": {}}}", desc_head, jstr(&msg));
-                    out.rust_fail(id, 1 << 22, &tr, &format!("fit returned an error on valid input (n > p >= k >= 1): {}", msg), &desc);
-                    out.rust_eval(&desc, None);
-                }
-            }
+            one_fit(&mut out, id, &x, &q, n, p, k, whiten, fortran, FAMILIES[fam], di, "all_sizes", probe);
             id += 1;
         }
     }
@@ -489,5 +571,69 @@ fn main() {
         out.case(id, &coq, &tags, &desc, Some(fnv(format!("bad {} {} {}", n, p, k).as_bytes())));
         id += 1;
     }
-    out.finish("record matrices n > p >= 1 (p <= 8) from 8 families (isotropic, rotated strongly anisotropic, low rank + noise, exact low rank, large offsets, badly scaled columns, half-integer lattice, tiny scale around the 1e-8 sigma floor) in C or Fortran layout; every embedding size 1..p per matrix, whitening drawn per fit; plus malformed requests (empty dataset, size 0, p+1, far outside); distinct = distinct (data, size, whitening, layout) hashes");
+
+    // ---------- stream 3: whitening and inverse_transform chained over UNSEEN data ----------
+    // a whitened model is fitted once without queries; the queries of the recorded (identical, the solver's seed
+    // is fixed) second fit are: fresh rows of the same family, far rows, rows built inside mean + span(components)
+    // (round trip must give them back even for k < p), and the rows inverse_transform(predict(.)) produced for the
+    // fresh rows in the first pass (a second application of the round trip must not move them: idempotence)
+    let nchain = if thorough { 60 } else { 9 };
+    for ci in 0..nchain {
+        let mut r = rng.fork();
+        let fam = *r.pick(&[0usize, 1, 2, 4, 5, 6, 8, 9]);
+        let p = 2 + r.below(if ci % 3 == 0 { 9 } else { 6 }) as usize;
+        let n = if r.chance(0.4) { p + 1 + r.below(3) as usize } else { p + 1 + r.below(30) as usize };
+        let x = gen_data(&mut r, n, p, fam);
+        let fortran = r.chance(0.3);
+        let fresh = {
+            let mut r2 = r.fork();
+            let mut f = gen_data(&mut r2, 4, p, if fam == 9 { 6 } else { fam });
+            if fam == 9 {
+                // stay next to the training cloud: fresh integer points about the first training row
+                for row in f.iter_mut() {
+                    for j in 0..p {
+                        row[j] = x[0][j] + (row[j] * 8.0).round();
+                    }
+                }
+            }
+            f
+        };
+        let far: Vec<Vec<f64>> = (0..2).map(|_| (0..p).map(|j| x[0][j] + r.range(-40, 40) as f64 * 16.0).collect()).collect();
+        let coefs: Vec<Vec<f64>> = (0..3).map(|_| (0..p).map(|_| r.range(-8, 8) as f64 * 0.5).collect()).collect();
+        let ks: Vec<usize> = { let mut v = vec![1, p, 1 + r.below(p as u64) as usize, (p + 1) / 2]; v.sort(); v.dedup(); v };
+        for k in ks {
+            // first pass (never recorded): model + round-tripped fresh rows
+            let mut q1 = fresh.clone();
+            q1.extend(far.iter().cloned());
+            let (xa, q1a) = (arr(&x, p, fortran), arr(&q1, p, false));
+            let mut q = x.clone();
+            q.extend(q1.iter().cloned());
+            if out.wanted(id) {
+                if let Res::Ok(f1) = run_fit(&xa, &q1a, k, true) {
+                    // unit directions of the whitened components (norm (n-1)/sigma^2 is undone in f64: only "roughly in the span" is needed)
+                    for c in &coefs {
+                        let mut row = f1.mean.clone();
+                        for (i, w) in f1.emb.iter().enumerate() {
+                            let nr = w.iter().map(|a| a * a).sum::<f64>().sqrt();
+                            let s = f1.sigma[i] / ((n as f64 - 1.0).sqrt());
+                            for j in 0..p {
+                                row[j] += c[i] * s * w[j] / nr.max(1e-300);
+                            }
+                        }
+                        if row.iter().all(|v| v.is_finite()) {
+                            q.push(row);
+                        }
+                    }
+                    for row in f1.inv.iter().take(fresh.len()) {
+                        if row.iter().all(|v| v.is_finite()) {
+                            q.push(row.clone());
+                        }
+                    }
+                }
+            }
+            one_fit(&mut out, id, &x, &q, n, p, k, true, fortran, FAMILIES[fam], ci, "chain_whiten_unseen", probe);
+            id += 1;
+        }
+    }
+    out.finish("record matrices n > p >= 1 (p <= 10) from 10 families (isotropic, rotated strongly anisotropic, low rank + noise, exact low rank, large offsets, badly scaled columns, half-integer lattice, tiny scale around the 1e-8 sigma floor, duplicated columns = exactly rank deficient, integer data with offsets up to 2^43 = 1e12 times the spread) in C or Fortran layout, n = p + 1 over-represented; every embedding size 1..p per matrix, whitening drawn per fit; plus malformed requests (empty dataset, size 0, p+1, far outside); plus whitened fits whose predict / inverse_transform are chained over unseen rows (fresh, far, inside mean + span(components), already round-tripped); distinct = distinct (data, size, whitening, layout) hashes");
 }
